@@ -40,6 +40,30 @@ def run(chk: Check, proj: Project) -> None:
     s5(chk, proj, w)
     s6(chk, proj, w)
     s7_own_backend(chk, proj)
+    s8_key_fields(chk, proj)
+
+
+def s8_key_fields(chk: Check, proj: Project, rule: str = "S8") -> None:
+    chk.rule(rule, "the script cache key is built from its fields UNCHANGED (class hash, kind, input hash): no slicing, casing or other lossy transformation of a field, so different classes / kinds / inputs never share an entry")
+    m, f = proj.func("dependencies", "_gen_cache_key")
+    chk.analysed(fkey(m, f))
+    ps = params(f)
+    bad = []
+    # parameters may not be reassigned, and every formatted value that mentions a parameter must be the bare parameter
+    for st in stmts(f):
+        for t, v in [(t, getattr(st, "value", None)) for t in (st.targets if isinstance(st, ast.Assign) else [st.target] if isinstance(st, (ast.AugAssign, ast.AnnAssign)) else [])]:
+            if isinstance(t, ast.Name) and t.id in ps:
+                bad.append(st)
+    n = 0
+    for j in [x for x in ast.walk(f) if isinstance(x, ast.JoinedStr)]:
+        for fv in [v for v in j.values if isinstance(v, ast.FormattedValue)]:
+            if any(isinstance(x, ast.Name) and x.id in ps for x in ast.walk(fv.value)):
+                n += 1
+                if not (isinstance(fv.value, ast.Name) and fv.conversion == -1 and fv.format_spec is None):
+                    bad.append(fv.value)
+    chk.ob(rule, "dependencies:_gen_cache_key:fields-unchanged", m.loc(bad[0]) if bad else m.loc(f), not bad and n >= 3,
+           "every field enters the key as the bare parameter" if not bad and n >= 3 else
+           f"`{short(bad[0]) if bad else 'key shape not recognised'}` changes a field before it enters the cache key: two component classes whose hashes agree after that transformation (e.g. long names that share a prefix, once the md5 suffix is cut off) share one entry - the second class is taken for cached, its script is never stored and the URL serves the first class's code")
 
 
 def _django_cache_param_keys() -> Dict[str, Set[str]]:
